@@ -690,11 +690,14 @@ func c16Helpers(c *Check) {
 			paths++
 			temp := -1 // unknown
 			for _, d := range dec {
-				if call, ok := ast.Unparen(d.Cond).(*ast.CallExpr); ok && isCall(info, call, exterrPkg+".IsTemporary", exterrPkg+".IsTemporaryOrUnspec") {
-					if d.Succ == 0 {
-						temp = 1
-					} else {
-						temp = 0
+				// the predicate may be negated or part of a compound condition: what the edge says about it
+				for _, af := range atomsOnEdge(d.Cond, d.Succ) {
+					if call, ok := ast.Unparen(af.E).(*ast.CallExpr); ok && isCall(info, call, exterrPkg+".IsTemporary", exterrPkg+".IsTemporaryOrUnspec") {
+						if af.T {
+							temp = 1
+						} else {
+							temp = 0
+						}
 					}
 				}
 			}
